@@ -192,6 +192,50 @@ func runC14(c *Ctx) {
 					}
 				}
 			}
+			// which getter is installed is decided on the VALIDATED location — strings.ToLower(in), the value the constructor
+			// checked to be "header" or "query" — never on the raw argument ("Header" validates, and must read the header)
+			{
+				var inPrm *ssa.Parameter
+				for _, prm := range outer.Params {
+					if prm.Name() == "in" || (inPrm == nil && typeStr(prm.Type()) == "string" && prm != outer.Params[0]) {
+						inPrm = prm
+					}
+				}
+				nLoc := 0
+				for _, in := range instrs(outer) {
+					bo, ok := in.(*ssa.BinOp)
+					if !ok || (bo.Op != token.EQL && bo.Op != token.NEQ) {
+						continue
+					}
+					k, isK := constString(bo.Y)
+					side := bo.X
+					if !isK {
+						k, isK = constString(bo.X)
+						side = bo.Y
+					}
+					if !isK || (k != "header" && k != "query") {
+						continue
+					}
+					nLoc++
+					isLoc := func(o Origin) bool {
+						// the location argument of this constructor — or of its sibling, when both share a helper
+						prm, isP := o.V.(*ssa.Parameter)
+						if !isP || prm.Parent() == nil || inPrm == nil {
+							return false
+						}
+						if prm == inPrm {
+							return true
+						}
+						return strings.Contains(prm.Parent().Name(), "APIKeyAuth") && prm.Name() == inPrm.Name()
+					}
+					okL, bad := allOrigins(side, oCallWhere(-1, "strings.ToLower", func(t *ssa.Call) bool {
+						okA, _ := allOrigins(t.Call.Args[0], isLoc)
+						return okA
+					}))
+					c.obI("R14.1", bo, "location-compared-in-validated-form", okL && inPrm != nil, "the key's location is compared in its lower-cased form — the form that was validated", "the location compared is "+describeOrigin(bad))
+				}
+				c.obRF("R14.1", outer, "location-decides-the-getter", nLoc >= 2, "the constructor compares the location with \"header\" / \"query\"", fmt.Sprintf("%d comparisons", nLoc))
+			}
 			c.obRF("R14.1", outer, "key-read-by-name-from-location", nHdr == 1 && nQry == 1, "an API key is read under its configured name from the header or from the query", fmt.Sprintf("header getters %d, query getters %d", nHdr, nQry))
 		case "bearer":
 			tok := cb.Call.Args[off]
